@@ -5,7 +5,7 @@ import ast
 
 from ..cfg import CFG
 from ..core import AnalysisError, own_nodes, short, unparse
-from ..rules import lint, live, nul
+from ..rules import lint, live, nul, shape
 from . import common
 
 EXPLANATION = (
@@ -24,6 +24,7 @@ UNDECIDED = ["the text visible at every time is preserved", "idempotence", "merg
              "configured colours / alignment are what snapshots compute"]
 TRUSTED = ["allowed output style set transcribed from the property statement"]
 
+_INDEX = []
 ALLOWED = {"DisplayAlign", "Extent", "Origin", "Color", "BackgroundColor", "TextAlign"}
 MODS = ["ttconv.filters.doc.lcd", "ttconv.filters.remove_animations", "ttconv.filters.supported_style_properties", "ttconv.filters.document_filter"]
 
@@ -44,6 +45,13 @@ def dict_keys(f, var):
         keys |= {_prop_name(k) for k in v.keys if k is not None}
       elif isinstance(v, ast.Call) and isinstance(v.func, ast.Name) and v.func.id == "dict" and v.args and isinstance(v.args[0], ast.Name):
         keys |= dict_keys(f, v.args[0].id)
+      elif isinstance(v, ast.Name) and _INDEX:
+        # alias of a module-level whitelist: its keys count; mutating it is reported by STATE-alias
+        mod_top = _INDEX[0].toplevel.get(f.module.name, {}).get(v.id)
+        if isinstance(mod_top, tuple) and mod_top[0] == "assign" and isinstance(mod_top[2], ast.Dict):
+          keys |= {_prop_name(k) for k in mod_top[2].keys if k is not None}
+        else:
+          raise AnalysisError(f"{f.qualname}: unrecognised construction of whitelist `{var}`: {short(v)}")
       else:
         raise AnalysisError(f"{f.qualname}: unrecognised construction of whitelist `{var}`: {short(v)}")
     if isinstance(st, ast.Call) and isinstance(st.func, ast.Attribute) and st.func.attr == "update" and unparse(st.func.value) == var:
@@ -239,6 +247,7 @@ def check_repoint_order(ctx):
 
 def run(ctx):
   ix = ctx.ix
+  _INDEX[:] = [ix]
   fs = common.scope_funcs(ctx, MODS)
   n_loops, n_live = live.check_live(ctx, fs, rule="LIVE")
   ctx.floor("LIVE", "live-view loops in the document filters", n_live, 3)
@@ -273,6 +282,21 @@ def run(ctx):
   check_repoint_order(ctx)
   lint.unsat_ranges(ctx, common.scope(ctx, MODS), rule="LINT-c")
   check_safe_area_range(ctx)
+  fs_lcd = common.funcs(ctx, MODS)
+  shape.check_falsy_zero(ctx, fs_lcd, {"safe_area", "get_begin", "get_end"})
+  shape.check_no_global_mutation(ctx, fs_lcd, allowed={"DocumentFilter._all_filters": "filter registry filled once per subclass at import time (__init_subclass__)"})
+  # the configured safe area is used as is for the region geometry
+  pf = ix.func("ttconv.filters.doc.lcd:LCDDocFilter.process")
+  uses = [n for n in own_nodes(pf.node) if isinstance(n, ast.Call) and unparse(n.func).endswith("LengthType") and "safe_area" in unparse(n)]
+  ok = len(uses) >= 4 and all(re_safe(unparse(u)) for u in uses)
+  ctx.check(ok, "FIN-range", f"{pf.qualname}|regions occupy exactly the configured safe area", ctx.where(pf.module, pf.node),
+            "origin = safe_area %, extent = 100 - 2 * safe_area %, all from self.config.safe_area",
+            f"the region origin / extent are no longer `self.config.safe_area` and `100 - 2 * self.config.safe_area` percent: {[short(u, 50) for u in uses][:4]}")
+
+
+def re_safe(text):
+  t = text.replace(" ", "")
+  return ("LengthType(self.config.safe_area,LengthType.Units.pct)" in t) or ("LengthType(value=100-2*self.config.safe_area,units=LengthType.Units.pct)" in t)
 
 
 def check_safe_area_range(ctx):
